@@ -204,6 +204,19 @@ PLAN = {
         quick=[rapid("prop", "TestProp", 3000)],
         thorough=[rapid("prop", "TestProp", 15000, shards=16)],
     ),
+    "C15": dict(
+        pkg="c15",
+        level="fault_enumeration",
+        rule=("rapid-generated tables (headed, distinct keys so that every renderer succeeds; multi-line cells; separators; ragged rows; alignments) x renderer in {csv, html, json, markdown, text under utf8-heavy / none (boxless) / ascii-simple / utf8-light}; "
+              "for each (table, renderer) a fault-free run counts the Write calls W and records the output, then EVERY k in [0,W) x mode in {every call from k on fails, only call k fails, call k writes half of its bytes and reports an error while later calls succeed} "
+              "is run on a freshly built table with a scripted io.Writer. Oracle: RenderTo returns a non-nil error, does not panic, and the concatenation of the bytes the writer accepted is a prefix of the fault-free output. "
+              "Each (table, renderer, k, mode) is one evaluation and a distinct fault point; non-trivial if k > 0 or the mode is not 'fails from k on'."),
+        level_text="Fault enumeration: for every generated (table, renderer) pair the space of single write-fault points (index x 3 modes) is enumerated completely; tables are drawn by rapid. Complete per table, exploratory over tables.",
+        level_note="Faults are injected at io.Writer.Write granularity with three failure modes; multi-fault sequences (two separate failing calls) are not enumerated. Tables whose fault-free render fails are skipped (counted).",
+        technique="fault injection enumerated over every write index x failure mode, on rapid-generated tables (property-based testing)",
+        quick=[rapid("prop", "TestProp", 300, min_evals=300)],
+        thorough=[rapid("prop", "TestProp", 2000, shards=16, min_evals=2000)],
+    ),
     "C18": dict(
         pkg="c18",
         rule=("strings built from a width-hostile token alphabet (newlines leading/trailing/repeated, CJK wide, full-width, combining, zero-width, emoji ZWJ/flag/skin-tone sequences, "
